@@ -24,7 +24,8 @@ instructions:
     bytecode: {value: 0, size: 8}
 """
 
-NAMES = ['VAL', 'VALUE2', 'AA', 'AB', 'BASE', 'OFFSET', 'LIMIT', 'MODE', 'DEBUG', 'X1', 'X2', 'X3', 'FOO', 'FOO_BAR', '_S1', 'S_', 'k9']
+# (b1, ACH: names that have the shape of a number; a defined symbol is substituted wherever it occurs as a whole word)
+NAMES = ['VAL', 'VALUE2', 'AA', 'AB', 'BASE', 'OFFSET', 'LIMIT', 'MODE', 'DEBUG', 'X1', 'X2', 'X3', 'FOO', 'FOO_BAR', '_S1', 'S_', 'k9', 'b1', 'ACH']
 
 
 # ------------------------------------------------------------------ C09 unit tie
